@@ -199,6 +199,8 @@ func VerifHarness_C10_update() {
 			zzverif.Assert(e2 != nil || int(c.Slot) != n.slot, "a pruned node is not found anymore")
 		} else if s.inT(i, anchor) {
 			zzverif.Assert(e2 == nil && int(c.Slot) == n.slot, "a retained node is still found")
+		} else if sink.failAt >= 0 {
+			zzverif.Assert(e2 == nil && int(c.Slot) == n.slot, "a node the failing sink did not receive is not dropped")
 		}
 	}
 	if sink.failAt >= 0 {
